@@ -103,7 +103,7 @@ def deferral_glue(c):
     with open(inp, "w") as f:
         for ci, name in enumerate(["g1", "g2"] + (["g3"] if thorough else [])):
             k = C11.CONFIGS[name]
-            d, m, cfgp = C11.materialise(name, k, "GenSpecR", ["EmitWalk"], "DeferralMC")
+            d, m, cfgp = C11.materialise(name, k, "GenSpecR", ["EmitWalk"], "DeferralMCR")
             r = vf.tlc(d, m, cfgp, workers=1, timeout=900, simulate=600 if thorough else 120, depth=30, seed=c.seed * 10 + ci + 1, heap="4g")
             walks = vf.parse_walks(r.stdout)
             if not walks:
